@@ -225,10 +225,20 @@ Inductive reject_reason :=
 | RejCoordinatorLookup          (* the find-coordinator exchange itself failed *)
 | RejCoordinatorError (code : Z). (* the find-coordinator response carries an error code *)
 
-(* what went on the wire for one message: (connection, api key) in order, then how it ended *)
+(* findcoordinator.Request.KeyType: CoordinatorKeyTypeConsumer / CoordinatorKeyTypeTransaction *)
+Definition KT_Group : Z := 0.
+Definition KT_Txn : Z := 1.
+
+(* what goes on the wire *)
+Inductive wire_msg :=
+| WReq (t : conn_target) (api : Z)      (* a request of API key [api] on that connection *)
+| WFind (ktype : Z) (key : name).       (* findcoordinator.Request{Key, KeyType}; it is neither a
+                                           Broker- nor a Group-message: the control connection *)
+
+(* what went on the wire for one message, in order, then how it ended *)
 Inductive send_result :=
-| Sent (trace : list (conn_target * Z))
-| Rejected (trace : list (conn_target * Z)) (why : reject_reason)
+| Sent (trace : list wire_msg)
+| Rejected (trace : list wire_msg) (why : reject_reason)
 | SendPanic.
 
 (* brokerID >= 0 -> grabBrokerConn, else grabClusterConn *)
@@ -236,35 +246,48 @@ Definition grab (conns : list (Z * broker)) (id : Z) : option conn_target :=
   if id >=? 0 then (if mhas Z.eqb conns id then Some (TBroker id) else None)
   else Some TControl.
 
-Definition send_to (conns : list (Z * broker)) (pre : list (conn_target * Z)) (id api : Z) : send_result :=
+Definition send_to (conns : list (Z * broker)) (pre : list wire_msg) (id api : Z) : send_result :=
   match grab conns id with
-  | Some t => Sent (pre ++ [(t, api)])
+  | Some t => Sent (pre ++ [WReq t api])
   | None => Rejected pre RejBrokerNotAvailable
   end.
 
-(* [fc]: the outcome of the find-coordinator exchange when one is made: None = it failed
-   (connection error), Some a = the response.  A non-zero ErrorCode rejects the request with
+(* [coord ktype key]: how the cluster answers a find-coordinator request for that key type and
+   key: None = the exchange failed (connection error), Some a = the response.  Group and
+   transaction coordinators of the same string are in general different brokers. *)
+Definition coord_fn := Z -> name -> option fc_answer.
+
+(* the find-coordinator exchange of sendRequest: a non-zero ErrorCode rejects the request with
    that Kafka error; otherwise brokerID = the NodeID field of the response. *)
+Definition via_coordinator (conns : list (Z * broker)) (coord : coord_fn) (ktype : Z) (key : name)
+           (api : Z) : send_result :=
+  let pre := [WFind ktype key] in
+  match coord ktype key with
+  | None => Rejected pre RejCoordinatorLookup
+  | Some a =>
+      if negb (fc_err a =? 0) then Rejected pre (RejCoordinatorError (fc_err a))
+      else send_to conns pre (fc_node a) api
+  end.
+
 Definition send_request (c : cluster) (conns : list (Z * broker)) (r : request_kind)
-           (fc : option fc_answer) : send_result :=
+           (coord : coord_fn) : send_result :=
   match route c r with
   | Some (Err e) => Rejected [] (RejRoute e)
   | Some Panic => SendPanic
   | Some (Ok b) => send_to conns [] (b_id b) (api_of r)
   | None =>
       match r with
-      | RGroup api _ | RTxn api _ =>
-          (* the find-coordinator request is neither Broker- nor Group-message: control connection *)
-          let pre := [(TControl, K_FindCoordinator)] in
-          match fc with
-          | None => Rejected pre RejCoordinatorLookup
-          | Some a =>
-              if negb (fc_err a =? 0) then Rejected pre (RejCoordinatorError (fc_err a))
-              else send_to conns pre (fc_node a) api
-          end
+      | RGroup api g => via_coordinator conns coord KT_Group g api     (* Key: m.Group() *)
+      | RTxn api t => via_coordinator conns coord KT_Txn t api         (* Key: m.Transaction(), KeyType: 1 *)
       | _ => send_to conns [] (-1) (api_of r)
       end
   end.
+
+(* protocol/findcoordinator: KeyType is `min=v1`: at version 0 it is not on the wire and the
+   broker answers for the group coordinator *)
+Definition coord_at_version (fcver : Z) (coord : coord_fn) : coord_fn :=
+  fun ktype key => coord (if fcver <? 1 then KT_Group else ktype) key.
+Definition ktype_at_version (fcver ktype : Z) : Z := if fcver <? 1 then KT_Group else ktype.
 
 (* ------------------------------------------------------------------ *)
 (* version negotiation: transport.go:1206 (connect) and protocol/conn.go RoundTrip *)
@@ -420,8 +443,8 @@ Inductive rt_result :=
 
 Definition has_unknown (m : metadata) : bool := existsb (fun t => mt_err t =? 3) (md_topics m).
 
-(* [fc] answers every find-coordinator exchange of this round trip *)
-Definition round_trip (p : pool) (q : rt_request) (fc : option fc_answer) : rt_result :=
+(* [fc] answers the find-coordinator exchanges of this round trip *)
+Definition round_trip (p : pool) (q : rt_request) (fc : coord_fn) : rt_result :=
   if negb (ps_ready p) then RTBlocked else
   let c := ps_layout p in
   match q with
@@ -457,7 +480,7 @@ Definition forces_refresh (q : rt_request) (res : rt_result) : bool :=
 (* ---- the pool as a labelled transition system ---- *)
 Inductive label :=
 | LRefresh (m : option metadata) (err : option N)     (* discover finished one exchange: update *)
-| LRequest (q : rt_request) (fc : option fc_answer).  (* a round trip starts (grabState) *)
+| LRequest (q : rt_request) (fc : coord_fn).  (* a round trip starts (grabState) *)
 
 Definition pool_step (p : pool) (l : label) : pool * option rt_result :=
   match l with
@@ -474,22 +497,69 @@ Fixpoint pool_run (p : pool) (ls : list label) {struct ls} : pool * list rt_resu
       (p2, match o with Some r => r :: os | None => os end)
   end.
 
-(* ---- discover (transport.go:589): when a refresh happens ---- *)
+(* ---- discover (transport.go:589): the refresh loop with its failure branches ---- *)
+(* error values the loop distinguishes (everything else is "some i/o error") *)
+Definition E_canceled : N := 1.     (* context.Canceled: ctx.Err() once the pool is closed *)
+Definition E_deadline : N := 2.     (* context.DeadlineExceeded: the per-request WithTimeout(ctx, metadataTTL) fired *)
+
+Inductive refresh_result :=
+| FAnswered (m : metadata)   (* res.await returned a *meta.Response, err == nil *)
+| FFailed (e : N)            (* res.await returned err: an i/o error, E_deadline when the request was
+                                not answered within metadataTTL, E_canceled when the pool was closed *)
+| FNoConn (e : N).           (* grabClusterConn failed (dial / ApiVersions / SASL) *)
+
 Inductive dphase :=
-| DFetching (notify : bool)      (* metadata request in flight; [notify]: somebody waits for it *)
-| DWaiting.                      (* in the select: timer (a random time below MetadataTTL), wake *)
+| DFetching (notify : bool)      (* metadata request in flight; [notify]: a refreshMetadata waits for it *)
+| DWaiting                       (* in the select: timer (a random time below MetadataTTL), wake, done *)
+| DStopped.                      (* the goroutine returned: no refresh ever again *)
+
 Inductive dlabel :=
-| DTimer          (* <-timer.C *)
-| DWake           (* notify = <-wake   (refreshMetadata) *)
-| DDone.          (* the exchange finished (either way); update applied; notify triggered *)
-Definition discover_init : dphase := DFetching false.
-Definition discover_step (ph : dphase) (l : dlabel) : option dphase :=
-  match ph, l with
-  | DWaiting, DTimer => Some (DFetching false)
-  | DWaiting, DWake => Some (DFetching true)
-  | DFetching _, DDone => Some DWaiting
+| DTimer                         (* <-timer.C *)
+| DWake                          (* notify = <-wake   (refreshMetadata) *)
+| DCancel                        (* the pool's context is cancelled (last unref) *)
+| DExit                          (* <-done in the select *)
+| DDone (r : refresh_result).    (* the exchange finished; update applied; notify triggered *)
+
+Record dstate := {
+  d_phase : dphase;
+  d_pool : pool;
+  d_ctx_err : option N           (* ctx.Err() of the pool's context: None until cancelled *)
+}.
+Definition discover_init : dstate :=
+  {| d_phase := DFetching false; d_pool := pool_init; d_ctx_err := None |}.
+
+(* errors.Is(err, target) with a possibly nil target *)
+Definition err_is (err : N) (target : option N) : bool :=
+  match target with Some t => N.eqb err t | None => false end.
+
+Definition discover_step (s : dstate) (l : dlabel) : option dstate :=
+  let goto ph p := Some {| d_phase := ph; d_pool := p; d_ctx_err := d_ctx_err s |} in
+  match d_phase s, l with
+  | DStopped, _ => None
+  | _, DCancel => Some {| d_phase := d_phase s; d_pool := d_pool s; d_ctx_err := Some E_canceled |}
+  | DWaiting, DTimer => goto (DFetching false) (d_pool s)
+  | DWaiting, DWake => goto (DFetching true) (d_pool s)
+  | DWaiting, DExit => match d_ctx_err s with Some _ => goto DStopped (d_pool s) | None => None end
+  | DFetching _, DDone (FAnswered m) => goto DWaiting (update (d_pool s) (Some m) None)
+  | DFetching _, DDone (FNoConn e) => goto DWaiting (update (d_pool s) None (Some e))
+  | DFetching _, DDone (FFailed e) =>
+      (* if err != nil && errors.Is(err, ctx.Err()) { return } *)
+      if err_is e (d_ctx_err s) then goto DStopped (d_pool s)
+      else goto DWaiting (update (d_pool s) None (Some e))
   | _, _ => None
   end.
+
+Fixpoint discover_run (s : dstate) (ls : list dlabel) {struct ls} : option dstate :=
+  match ls with
+  | [] => Some s
+  | l :: ls' => match discover_step s l with Some s' => discover_run s' ls' | None => None end
+  end.
+
+(* one turn of the loop: woken by the timer or by refreshMetadata, then the exchange ends with [r] *)
+Definition refresh_turn (woken : bool) (r : refresh_result) : list dlabel :=
+  [if woken then DWake else DTimer; DDone r].
+Definition is_failure (r : refresh_result) : bool :=
+  match r with FAnswered _ => false | _ => true end.
 
 (* ------------------------------------------------------------------ *)
 (* which routing interface the request type of each API key implements in /repo/protocol/*
